@@ -22,6 +22,7 @@ RULE = ("exhaustive enumeration of (key, interval in -48..48), (key, a, b in -13
 RULE = RULE + " Rounds e-g: wide and negative integers before ordinary pitches, table integrity after ordinary library use (key guess, transposition, MIDI key loading, get_info, equals / merge of differently keyed sequences)."
 RULE = RULE + " Round h: intervals beyond the float range."
 RULE = RULE + " Round i: keyword calls."
+RULE = RULE + " Round j: numpy int64 intervals."
 ASSUMPTIONS = ["KeyNoteMapping's first element of each scale list is the tonic (checked: it must span a major scale)",
                "enharmonic spelling of the returned key is free (compared as tonic pitch class + pitch-class set)"]
 TIERS = {"quick": dict(shards=2, examples=300, enum_shards=6),
@@ -40,6 +41,9 @@ def enumerate_cases(params):
     for k in KEYS:
         for n in range(-48, 49):
             yield {"kind": "transpose", "key": k, "n": n}
+    for k in KEYS:
+        for n in range(-25, 26):
+            yield {"kind": "transpose", "key": k, "n": n, "np": "int64"}
     for k in KEYS:
         for a in range(-13, 14):
             yield {"kind": "additive", "key": k, "a": a, "bs": list(range(-13, 14))}
@@ -142,6 +146,9 @@ def check(case):
     out.nontrivial = True
     if kind == "transpose":
         key, n = Key(case["key"]), case["n"]
+        if case.get("np") and -2 ** 62 < n < 2 ** 62:
+            n = getattr(numpy, case["np"])(n)       # the interval arrives as a numpy integer scalar (np.arange, rng.integers)
+            out.label("numpy-interval")
         if key == Key.C and n == 0:
             out.nontrivial = False
         try:
